@@ -165,6 +165,19 @@ CHECKS['C14'] = dict(
     technique='symbolic execution of the Python source on real (object) ndarrays + structural alias analysis per path; Z3 for branches',
 )
 
+CHECKS['C08'] = dict(
+    level='model_checking',
+    text='Symbolic execution of the real Newton-Euler code and of the Arm-level re-implementations on chains with symbolic '
+         'state (q, qd, qdd, tau, g, F_tip) and symbolic SPD inertias: M symmetric; M = sum J_i^T G_i J_i with link Jacobians '
+         'obtained by FORMAL differentiation of independently built link poses; tau = M qdd + c + g + J^T F; M*FD = tau - c - g '
+         '- J^T F; gravity term = gradient of the potential; tip term = J_tip^T F; qd.c = 1/2 qd^T Mdot qd with Mdot the formal '
+         'derivative of the computed M; all inverse/forward dynamics implementations (incl. trajectory form and Arm methods at '
+         'identity and non-identity base) agree; leading minors > 0 for n <= 2. Energy conservation and n=3 positive '
+         'definiteness follow on paper from these (stated).',
+    design='5/C08',
+    technique='symbolic execution of the Python source + formal differentiation + Z3 per path',
+)
+
 NOT_APPLICABLE = {
 }
 
